@@ -448,6 +448,125 @@ def do_netifaddrs_front(c):
     return out
 
 
+
+# ----------------------------------------------------------------------------- round 3: failure paths of the OS calls
+
+def _exc_full(e):
+    d = exc_obs(e)
+    if isinstance(e, OSError):
+        d["errno_num"] = e.errno
+        d["strerror"] = e.strerror if isinstance(e.strerror, str) else None
+    return d
+
+
+def do_ifaddrs_fail(c):
+    """cext_posix.net_if_addrs() when getifaddrs() itself fails (shim2: errno, and whether libc stored NULL into *ifap)."""
+    _script("ifaddrs.txt", "FAIL %d %d\n" % (int(c["err"]), 1 if c["stores_null"] else 0))
+    try:
+        if c.get("errno") is not None:
+            poison_errno(c["errno"])
+        rows = cext_posix.net_if_addrs()
+        out = {"kind": "ok", "rows": len(rows)}
+    except Exception as e:  # noqa: BLE001
+        out = _exc_full(e)
+    finally:
+        _unscript("ifaddrs.txt")
+    return out
+
+
+def do_ifr_sockfail(c):
+    """the four ifreq entry points when socket() fails: OSError with that errno, no ioctl issued"""
+    _script("socket.txt", "%d\n" % int(c["err"]))
+    _script("ioctl.txt", "0 0 1500 0 0 0 0\n")
+    _unscript("socket.out")
+    _unscript("ioctl.out")
+    name = os.fsdecode(bytes.fromhex(c["name"]))
+    out = {}
+    try:
+        for key, fn in (("mtu", cext_posix.net_if_mtu), ("flags", cext_posix.net_if_flags), ("running", cext_posix.net_if_is_running),
+                        ("duplex_speed", cext.net_if_duplex_speed)):
+            try:
+                if c.get("errno") is not None:
+                    poison_errno(c["errno"])
+                out[key] = {"kind": "value", "value": fn(name)}
+            except Exception as e:  # noqa: BLE001
+                out[key] = _exc_full(e)
+        for k, f in (("sockets", "socket.out"), ("ioctls", "ioctl.out")):
+            try:
+                with open(os.path.join(SCRATCH, f)) as fh:
+                    out[k] = len(fh.read().splitlines())
+            except OSError:
+                out[k] = 0
+    finally:
+        for f in ("socket.txt", "ioctl.txt", "socket.out", "ioctl.out"):
+            _unscript(f)
+    return out
+
+
+def do_ifr_errmsg(c):
+    """the ifreq entry points when the ioctl fails with an errno whose strerror() text is long: the message psutil formats into
+    its fixed `fullmsg` buffer comes back as OSError.strerror"""
+    _script("ioctl.txt", "-1 %d 0 0 0 0 0\n" % int(c["err"]))
+    _unscript("ioctl.out")
+    name = os.fsdecode(bytes.fromhex(c["name"]))
+    out = {}
+    try:
+        for key, fn in (("mtu", cext_posix.net_if_mtu), ("flags", cext_posix.net_if_flags), ("running", cext_posix.net_if_is_running),
+                        ("duplex_speed", cext.net_if_duplex_speed)):
+            try:
+                out[key] = {"kind": "value", "value": fn(name)}
+            except Exception as e:  # noqa: BLE001
+                out[key] = _exc_full(e)
+    finally:
+        _unscript("ioctl.txt")
+        _unscript("ioctl.out")
+    return out
+
+
+def do_partitions_mtab(c):
+    """psutil.disk_partitions() with PROCFS_PATH left at "/proc": which mounts file is read (os.path.isfile('/etc/mtab') and
+    os.path.realpath scripted; the paths handed to cext.disk_partitions are recorded; /proc/filesystems is the real one)"""
+    from unittest import mock
+    mtab = os.path.join(SCRATCH, "mtab")
+    selfm = os.path.join(SCRATCH, "selfmounts")
+    with open(mtab, "wb") as f:
+        f.write(bytes.fromhex(c["mtab"]))
+    with open(selfm, "wb") as f:
+        f.write(bytes.fromhex(c["selfmounts"]))
+    real_isfile, real_realpath = os.path.isfile, os.path.realpath
+    asked = []
+
+    def fake_isfile(p):
+        if p == "/etc/mtab":
+            return bool(c["has_mtab"])
+        return real_isfile(p)
+
+    def fake_realpath(p, *a, **k):
+        asked.append(p)
+        if p == "/etc/mtab":
+            return mtab
+        if p == "/proc/self/mounts":
+            return selfm
+        return real_realpath(p, *a, **k)
+    orig = _pslinux.RootFsDeviceFinder
+    StubRootFinder.answer = None
+    _pslinux.RootFsDeviceFinder = StubRootFinder
+    out = {}
+    try:
+        assert psutil.PROCFS_PATH == "/proc"
+        with mock.patch.object(_pslinux.os.path, "isfile", fake_isfile), mock.patch.object(_pslinux.os.path, "realpath", fake_realpath):
+            try:
+                rows = psutil.disk_partitions(all=True)
+                out = {"kind": "ok", "rows": [[fs(p.device), fs(p.mountpoint), fs(p.fstype), fs(p.opts)] for p in rows],
+                       "fields": list(rows[0]._fields) if rows else None}
+            except Exception as e:  # noqa: BLE001
+                out = exc_obs(e)
+    finally:
+        _pslinux.RootFsDeviceFinder = orig
+    out["asked"] = asked
+    return out
+
+
 def raw_ioprio(pid):
     try:
         return list(cext.proc_ioprio_get(pid))
@@ -570,7 +689,8 @@ def do_entrypoints(c):
 HANDLERS = {"users": do_users, "partitions": do_partitions, "call": do_call, "ionice": do_ionice,
             "netif": do_netif, "ifaddrs": do_ifaddrs, "ifr": do_ifr, "sysinfo": do_sysinfo, "getprio": do_getprio,
             "entrypoints": do_entrypoints, "rootfs": do_rootfs, "netifstats": do_netifstats,
-            "netifaddrs_front": do_netifaddrs_front, "ping": lambda c: {"pong": os.getpid()}}
+            "netifaddrs_front": do_netifaddrs_front, "ifaddrs_fail": do_ifaddrs_fail,
+            "ifr_sockfail": do_ifr_sockfail, "ifr_errmsg": do_ifr_errmsg, "partitions_mtab": do_partitions_mtab, "ping": lambda c: {"pong": os.getpid()}}
 
 
 def main():
